@@ -346,3 +346,22 @@ CONTRACTS += [
              note='layout: a three-letter entity, two blanks, a three-letter suffix modifier, a blank, other text (letters symbolic); '
                   'the suffix pattern matches exactly the modifier word at the start of the text after the entity'),
 ]
+
+# ---- the CJK number parser rewrites traditional characters for its sub-parsers on a COPY: the reported text is the original
+CJKP = NUM + 'number/cjk_parsers.py::CJKNumberParser.'
+_CJK_PR = Rec(RT + 'parser.py::ParseResult', dict(start=Int(0), length=Int(1), text=Str(), type=Str(), data=Const(None), meta_data=Const(None),
+                                                 value=Int(), resolution_str=Str()))
+CONTRACTS += [
+    Contract('c01.env.cjk_int_parse', CJKP + 'int_parse', ['C01'], returns=_CJK_PR, params=dict(self=Opaque(), source=Opaque()), ensures=[],
+             assumed='the integer sub-parser returns some parse result (its text field is overwritten by parse)'),
+    Contract('c01.cjk_parser.parse.text_restored', CJKP + 'parse', ['C01', 'C03'], decorators=['precision'], modular=['id:c01.env.cjk_int_parse'],
+             params=dict(a0=Int(0, 25), a1=Int(0, 25),
+                         self=Rec(NUM + 'number/cjk_parsers.py::CJKNumberParser',
+                                  dict(config=Config(tables=dict(trato_sim_map=Map('str', 'str'))))),
+                         source=Rec(RT + 'extractor.py::ExtractResult',
+                                    dict(start=Int(0), length=Const(2), text=Expr('letter_char(a0) + letter_char(a1)'), type=Str(),
+                                         data=Const('IntegerChs'), meta_data=Const(None)))),
+             ensures=[('the-reported-text-is-the-text-that-was-extracted', 'result.text == old(source).text'),
+                      ('the-extract-result-handed-in-is-not-rewritten', 'source.text == old(source).text')],
+             note='two characters standing for any characters (letters as place holders), an arbitrary traditional-to-simplified table'),
+]
